@@ -243,6 +243,36 @@ func genC13(seed uint64, tier string) *Scenario {
 			in.Rep = r.n(k + 1)
 		}
 		frags = []string{"a", "b", "c", "ab", "abab", ""}
+	case (x == 4 || x == 7) && r.chance(1, 4):
+		// a chain of single-character loops over different letters, every one of which matches something in
+		// one pass: left to right, right to left, and right to left inside a lookbehind
+		k := 2 + r.n(15)
+		var pb, ib strings.Builder
+		quants := [][]string{{"*"}, {"*", "*", "+", "{0,2}"}, {"*", "*", "+", "{0,2}", "{1,3}", "*?", "?"}, {"*?", "+?", "??"}}[r.n(4)]
+		for i := 0; i < k; i++ {
+			c := string(rune('a' + i))
+			set := []string{c, c, "[" + c + strings.ToUpper(c) + "]", "[^#" + string(rune('a'+(i+1)%k)) + "]"}[r.n(4)]
+			pb.WriteString(set + quants[r.n(len(quants))])
+			ib.WriteString(strings.Repeat(c, 1+r.n(3)))
+		}
+		chain, text := pb.String(), ib.String()
+		switch r.n(4) {
+		case 0:
+			spec = ReSpec{Pat: chain}
+		case 1:
+			spec = ReSpec{Pat: chain, Opts: oRTL}
+		case 2:
+			spec = ReSpec{Pat: "(?<=" + chain + ")X"}
+			text += "X"
+		default:
+			spec = ReSpec{Pat: "(?<!" + chain + "#)X", Opts: []int{0, oI}[r.n(2)]}
+			text += "X"
+		}
+		in = lit(text)
+		if r.chance(1, 4) {
+			in = InputSpec{Pre: randABC(r, r.n(3)), Unit: text, Rep: 1 + r.n(3)}
+		}
+		frags = []string{"a", "b", "ab", "abc", "X", "aabbX", ""}
 	case x == 4 || x == 7:
 		pat, fr := packedPattern(r)
 		spec = ReSpec{Pat: pat}
